@@ -185,63 +185,83 @@ Proof.
 Qed.
 
 (* ------------------------------------------------------------------ 4. dims_product *)
-Lemma dims_product_gen : forall ds count c, (1 <= count)%Z ->
-  (forallb (fun d => 1 <=? d) ds = true)%Z -> dims_product ds count = Some c ->
+(* dimensions are int32 values >= 1 (dim_ok); the running product is checked against MaxInt32 after every step, so the
+   int64 multiplication of the model (mul64, wrapping modulo 2^64 like Go's) never wraps *)
+Lemma mul64_exact : forall a b, (1 <= a <= max_int32)%Z -> (1 <= b <= max_int32)%Z -> mul64 a b = (a * b)%Z.
+Proof.
+  intros a b Ha Hb. unfold mul64, max_int32 in *.
+  assert (H : (1 <= a * b <= 2147483647 * 2147483647)%Z) by nia.
+  assert (Hp : pow8 8 = 18446744073709551616%Z) by reflexivity.
+  rewrite Z.mod_small by (rewrite Hp; lia). unfold to_signed. rewrite Hp.
+  destruct (Z.ltb_spec (a * b) (18446744073709551616 / 2)) as [_|Hge]; [reflexivity|].
+  exfalso. assert (18446744073709551616 / 2 = 9223372036854775808)%Z by reflexivity. lia.
+Qed.
+
+Lemma dim_ok_range : forall d, dim_ok d = true -> (1 <= d <= max_int32)%Z.
+Proof. intros d H. unfold dim_ok in H. apply andb_true_iff in H as [H1 H2]. apply Z.leb_le in H1, H2. lia. Qed.
+
+Lemma dims_product_gen : forall ds count c, (1 <= count <= max_int32)%Z ->
+  forallb dim_ok ds = true -> dims_product ds count = Some c ->
   c = (count * Z.of_nat (nprod (map Z.to_nat ds)))%Z /\ Forall (fun d => 1 <= d)%nat (map Z.to_nat ds).
 Proof.
   induction ds as [|d r IH]; intros count c Hc Hall Hp.
   - cbn in Hp. injection Hp as <-. cbn. split; [lia | constructor].
-  - cbn [forallb] in Hall. apply andb_true_iff in Hall as [Hd Hr]. apply Z.leb_le in Hd.
-    cbn [dims_product] in Hp. cbv zeta in Hp.
+  - cbn [forallb] in Hall. apply andb_true_iff in Hall as [Hd Hr]. apply dim_ok_range in Hd.
+    cbn [dims_product] in Hp. cbv zeta in Hp. rewrite mul64_exact in Hp by assumption.
     destruct (Z.ltb_spec max_int32 (count * d)) as [Hlt|Hle]; [discriminate Hp|].
-    assert (Hc' : (1 <= count * d)%Z) by nia.
+    assert (Hc' : (1 <= count * d <= max_int32)%Z) by nia.
     destruct (IH _ _ Hc' Hr Hp) as [-> HF]. split.
     + cbn [map]. rewrite nprod_cons, Nat2Z.inj_mul, Z2Nat.id by lia. ring.
     + cbn [map]. constructor; [lia | exact HF].
 Qed.
 
-Lemma dims_product_nprod : forall ds c, (forallb (fun d => 1 <=? d) ds = true)%Z -> dims_product ds 1 = Some c ->
+(* the guard makes the wrap unreachable: an accepted dimension vector has its TRUE product equal to the result *)
+Lemma dims_product_nprod : forall ds c, forallb dim_ok ds = true -> dims_product ds 1 = Some c ->
   c = Z.of_nat (nprod (map Z.to_nat ds)) /\ Forall (fun d => 1 <= d)%nat (map Z.to_nat ds).
 Proof.
-  intros ds c Hall Hp. destruct (dims_product_gen ds 1 c ltac:(lia) Hall Hp) as [-> HF].
+  intros ds c Hall Hp. destruct (dims_product_gen ds 1 c ltac:(unfold max_int32; lia) Hall Hp) as [-> HF].
   split; [apply Z.mul_1_l | exact HF].
 Qed.
 
-Lemma forallb_ge1_Forall : forall ds, (forallb (fun d => 1 <=? d) ds = true)%Z ->
+Lemma forallb_ge1_Forall : forall ds, forallb dim_ok ds = true ->
   Forall (fun d => 1 <= d)%nat (map Z.to_nat ds).
 Proof.
   induction ds as [|d r IH]; intros H; [constructor|].
-  cbn [forallb] in H. apply andb_true_iff in H as [Hd Hr]. apply Z.leb_le in Hd.
+  cbn [forallb] in H. apply andb_true_iff in H as [Hd Hr]. apply dim_ok_range in Hd.
   cbn [map]. constructor; [lia | auto].
 Qed.
 
-Lemma nprod_dims_product_gen : forall ds count, (1 <= count)%Z ->
-  (forallb (fun d => 1 <=? d) ds = true)%Z ->
+Lemma nprod_dims_product_gen : forall ds count, (1 <= count <= max_int32)%Z ->
+  forallb dim_ok ds = true ->
   (count * Z.of_nat (nprod (map Z.to_nat ds)) <= max_int32)%Z ->
   dims_product ds count = Some (count * Z.of_nat (nprod (map Z.to_nat ds)))%Z.
 Proof.
   induction ds as [|d r IH]; intros count Hc Hall Hle.
   - cbn. f_equal. lia.
   - pose proof (nprod_pos _ (forallb_ge1_Forall _ Hall)) as Hpos0.
-    cbn [forallb] in Hall. apply andb_true_iff in Hall as [Hd Hr]. apply Z.leb_le in Hd.
+    cbn [forallb] in Hall. apply andb_true_iff in Hall as [Hd Hr]. apply dim_ok_range in Hd.
     pose proof (nprod_pos _ (forallb_ge1_Forall _ Hr)) as Hpos.
     cbn [map] in *. rewrite nprod_cons, Nat2Z.inj_mul, Z2Nat.id in * by lia.
     set (P := Z.of_nat (nprod (map Z.to_nat r))) in *.
     assert (HP : (1 <= P)%Z) by (subst P; lia).
-    cbn [dims_product]. cbv zeta.
+    cbn [dims_product]. cbv zeta. rewrite mul64_exact by assumption.
     destruct (Z.ltb_spec max_int32 (count * d)) as [Hlt|Hle'].
     + exfalso. assert ((count * d <= count * (d * P))%Z) by nia. lia.
     + rewrite IH; [f_equal; ring | nia | exact Hr | ].
       fold P. rewrite <- Z.mul_assoc. exact Hle.
 Qed.
 
-Lemma nprod_dims_product : forall ds, (forallb (fun d => 1 <=? d) ds = true)%Z ->
+Lemma nprod_dims_product : forall ds, forallb dim_ok ds = true ->
   (Z.of_nat (nprod (map Z.to_nat ds)) <= max_int32)%Z ->
   dims_product ds 1 = Some (Z.of_nat (nprod (map Z.to_nat ds))).
 Proof.
-  intros ds Hall Hle. rewrite nprod_dims_product_gen; [f_equal; apply Z.mul_1_l | lia | exact Hall | ].
+  intros ds Hall Hle. rewrite nprod_dims_product_gen; [f_equal; apply Z.mul_1_l | unfold max_int32; lia | exact Hall | ].
   rewrite Z.mul_1_l. exact Hle.
 Qed.
+
+(* without the guard the wrap is reachable: the product of 16, 2^30, 2^30 is 0 modulo 2^64 (seeded change C02-a) *)
+Example mul64_wraps : mul64 (mul64 16 1073741824) 1073741824 = 0%Z /\ dims_product [16; 1073741824; 1073741824]%Z 1 = None.
+Proof. vm_compute. split; reflexivity. Qed.
 
 Print Assumptions split_leaves.
 Print Assumptions shape_split.
